@@ -33,7 +33,7 @@ def gen_sched(rng, approx):
     if rng.random() < 0.25:
         return []
     n = rng.randrange(1, 12)
-    return [rng.choice([0, 1, 1, 2, 3, 5, 8, 16, rng.randrange(1, max(2, approx))]) for _ in range(n)]
+    return [rng.choice([0, "r", "r", 1, 1, 2, 3, 5, 8, 16, rng.randrange(1, max(2, approx))]) for _ in range(n)]
 
 
 def payload_len(rng, b):
@@ -52,6 +52,7 @@ class RealPair:
         self.in_sock = L.FragSock()
         self.ps = self.Packetizer(self.out_sock)
         self.pr = self.Packetizer(self.in_sock)
+        self.in_sock.pk = self.pr
 
     def do(self, req):
         w = req.split(" ")
@@ -87,13 +88,19 @@ class RealPair:
             elif op == "rem":
                 self.pr._Packetizer__remainder = bytes.fromhex(w[1]) if w[1] != "-" else b""
             elif op == "read":
-                self.in_sock.sched = [] if w[1] == "-" else [int(x) for x in w[1].split(",")]
+                self.in_sock.sched = L.parse_sched(w[1])
                 with L.Patched(hmac=L.toy_hmac):
-                    cmd, m = self.pr.read_message()
-                return "ok %d %s %d" % (cmd, hx(m.asbytes()), m.seqno)
+                    cmd, m, retries = L.read_message_retrying(self.pr)
+                return "ok %d %s %d %d" % (cmd, hx(m.asbytes()), m.seqno, retries)
             elif op == "readall":
-                self.in_sock.sched = [] if w[2] == "-" else [int(x) for x in w[2].split(",")]
-                return hx(self.pr.read_all(int(w[1])))
+                from paramiko.packet import NeedRekeyException
+                self.in_sock.sched = L.parse_sched(w[3])
+                try:
+                    return hx(self.pr.read_all(int(w[1]), check_rekey=w[2] == "1"))
+                except NeedRekeyException:
+                    return "rekey"
+                finally:
+                    self.pr._Packetizer__need_rekey = False
             else:
                 raise AssertionError(op)
             return "ok"
@@ -166,7 +173,9 @@ def gen_session(rng, pair, thorough):
             elif r < 0.27:
                 reqs += ["seqout 0", "seqin 0"]
     if rng.random() < 0.3:
-        reqs.append(("readall", rng.choice([-3, -1, 0, 1, 4, 9]), rng.randbytes(rng.randrange(0, 12)), rng.randbytes(rng.randrange(0, 6))))
+        for _ in range(rng.randrange(1, 4)):
+            reqs.append(("readall", rng.choice([-3, -1, 0, 1, 4, 9]), rng.randbytes(rng.randrange(0, 12) if rng.random() < 0.5 else 0),
+                         rng.randbytes(rng.randrange(0, 12)), rng.random() < 0.7))
     return reqs
 
 
@@ -230,7 +239,11 @@ def run_sessions(ctx, Packetizer, Message, n_sessions):
                     emit("feed " + hx(data))
                 for _ in range(n + (1 if rng.random() < 0.1 else 0)):
                     sc = gen_sched(rng, 64)
-                    out = emit("read " + (",".join(map(str, sc)) or "-"))
+                    out = emit("read " + L.sched_tok(sc))
+                    if "r" in sc:
+                        ctx.dist("toy:read-with-rekey-pending-timeouts")
+                    if out.startswith("ok") and out.split(" ")[4] != "0":
+                        ctx.dist("toy:read:NeedRekeyException-retried", int(out.split(" ")[4]))
                     ctx.dist("toy:read:" + (out.split(" ")[0] if out.startswith("ok") else out))
                     if out.startswith("err:"):
                         dead = True
@@ -239,8 +252,13 @@ def run_sessions(ctx, Packetizer, Message, n_sessions):
                 emit("rem " + hx(item[2]))
                 emit("feed " + hx(item[3]))
                 sc = gen_sched(rng, 8)
-                out = emit("readall %d %s" % (item[1], ",".join(map(str, sc)) or "-"))
-                ctx.dist("toy:readall:" + ("neg" if item[1] < 0 else "nonneg") + (":err" if out.startswith("err") else ""))
+                if rng.random() < 0.4:
+                    sc = rng.choice([["r"], [0, "r"], [1, "r"], ["r", "r"]]) + sc
+                out = emit("readall %d %d %s" % (item[1], item[4], L.sched_tok(sc)))
+                ctx.dist("toy:readall:" + ("neg" if item[1] < 0 else "nonneg") + (":err" if out.startswith("err") else "")
+                         + (":rekey" if out == "rekey" else ""))
+                if out.startswith("err"):
+                    dead = True
     return lines, impl, sess
 
 
@@ -249,6 +267,7 @@ def oracle_session(ctx, Packetizer, Message, suites, comp, nmsgs, maxlen, switch
     rng = ctx.rng
     out_sock, in_sock = L.SinkSock(rng), L.FragSock()
     ps, pr = Packetizer(out_sock), Packetizer(in_sock)
+    in_sock.pk = pr
     ps._initial_kex_done = pr._initial_kex_done = True
     seq = rng.choice([0, 3, 0xFFFFFFFA, 0xFA, 0xFFFA, 0xFFFFFA, rng.randrange(1 << 32)])
     L.set_seq(ps, out=seq)
@@ -309,6 +328,7 @@ def big_session(ctx, Packetizer, Message, c, m, comp, salt):
     rng = ctx.rng
     out_sock, in_sock = L.SinkSock(rng), L.FragSock()
     ps, pr = Packetizer(out_sock), Packetizer(in_sock)
+    in_sock.pk = pr
     ps._initial_kex_done = pr._initial_kex_done = True
     case = {"suites": [[c, m]], "compression": comp, "lens": []}
     try:
@@ -350,9 +370,15 @@ def drain(ctx, pr, in_sock, out_sock, pending, case):
         ctx.dist("oracle:banner-remainder")
     in_sock.feed(out_sock.take())
     for payload, seq in pending:
-        in_sock.sched = [rng.choice([0, 1, 2, 3, 7, 16, 100, 1000, rng.randrange(1, 5000)]) for _ in range(rng.randrange(0, 10))]
+        # recv sizes, timeouts with the need-rekey flag clear (0) and set ("r"): the first block of a packet is often
+        # split around a timeout while a rekey is pending; read_message is retried as Transport.run does
+        in_sock.sched = [rng.choice([0, "r", "r", 1, 2, 3, 7, 16, 100, 1000, rng.randrange(1, 5000)]) for _ in range(rng.randrange(0, 10))]
+        if "r" in in_sock.sched:
+            ctx.dist("oracle:reads-with-rekey-pending-timeouts")
         try:
-            cmd, msg = pr.read_message()
+            cmd, msg, retries = L.read_message_retrying(pr)
+            if retries:
+                ctx.dist("oracle:NeedRekeyException-retried", retries)
         except Exception as e:
             return ("receive:" + L.classify(e), dict(case, at_len=len(payload)), "%s while reading a message of %d bytes" % (exc_site(e), len(payload)))
         got = bytes([cmd]) + msg.asbytes()
@@ -462,15 +488,17 @@ META = {
               "alike, all four receive paths (no cipher, classic, encrypt-then-MAC, AEAD) and every recv fragmentation / "
               "timeout schedule: the receiver delivers exactly the sender's messages (type, payload, sequence number; order; "
               "none lost, duplicated or merged), consumes exactly the wire and stays keyed like the sender (induction with the "
-              "paired-state invariant incl. sequence numbers mod 2^32, IV counter, compressor state). Ciphers/AEAD/MAC/zlib "
+              "paired-state invariant incl. sequence numbers mod 2^32, IV counter, compressor state); the need-rekey flag may have any "
+              "value at any timeout: NeedRekeyException is raised only with nothing consumed and the retried read_message loses "
+              "no byte (read_all_any_chunking, read_message_retry_any_schedule). Ciphers/AEAD/MAC/zlib "
               "are abstract with explicit laws, proved for the toy instance; the same toys run inside the REAL Packetizer "
               "and agree with the model byte for byte (wire, decoded messages, error kinds), and the real primitives are "
               "exercised for every cipher x MAC x compression by the oracle."),
     "note": ("Trusted: Lean kernel + 3 standard axioms; correspondence harness; the laws assumed of cryptography/zlib "
              "(CipherLaws, AeadLaws, MacOk, CompLaws - listed in the evidence). Hypothesis of the theorems: the sender's "
              "calls succeeded (payload non-empty and < 2^32-ish, no sequence roll-over before the first kex, 64-bit GCM "
-             "invocation counter not exhausted). Not in this model: rekey counters/need_rekey (C10), keepalive, handshake "
-             "timer; configurations with etm and aead both set. The theorems take an empty __remainder; the remainder path "
+             "invocation counter not exhausted). Not in this model: the rekey counters that SET need_rekey (C10; here the flag is "
+             "an arbitrary input at every timeout), keepalive, handshake timer; configurations with etm and aead both set. The theorems take an empty __remainder; the remainder path "
              "of read_all (incl. its negative-size slice quirk) is modelled and covered by the correspondence only."),
     "technique": "Lean 4 proof (induction over histories with a paired-state invariant; free-monad reader for read_all) + toy-primitive differential correspondence + real-primitive oracle",
 }
